@@ -7,6 +7,7 @@ from sa.query import Facts, call_name, find_calls, try_fold, calls_in, defs_of, 
 from sa.prov import Prov
 from sa.layout import Layout
 from .common import firmware, send_sites, protocol_classes
+from sa.decide import Walker, completions, cmp_parts, is_pure, values_at
 from .c06 import _strip
 
 TECHNIQUE = ("provenance expansion + byte-layout normalisation of every payload sent by the sign exchanges, "
@@ -23,14 +24,19 @@ EXPLANATION = (
     "op|data[offset:offset+requested], advances by what was sent, takes the next size from the device's answer, "
     "stops when another op is requested, fails on an unexpected op or on unsent data when full data is expected; "
     "request fields are wired to the right parameters (btc_tx = get_unsigned_tx(tx)) and r/s of the parsed DER "
-    "signature to the reply; varint thresholds. Does not decide byte-exact reassembly for all inputs and chunk "
+    "signature to the reply; varint thresholds; the frame of the script blanking (rules B.R1/B.R2, shared with C14). Does not decide byte-exact reassembly for all inputs and chunk "
     "policies, nor python-bitcoinlib semantics."
 )
 
 
 def _lay(run, PV, fn, cls, expr, node, stop=()):
     L = Layout(lambda e: try_fold(run.P, e, fn, cls))
-    return {L.canon(x) for x in PV.expand_consistent(fn, cls, expr, node, stop=stop)}
+    return _fold_rep({L.canon(x) for x in PV.expand_consistent(fn, cls, expr, node, stop=stop)})
+
+
+def _fold_rep(vs):
+    """`X` and `X | repeat(Y)` are one family (zero or more repetitions): keep the longer."""
+    return {v for v in vs if not any(o != v and o.startswith(v + " | repeat(") for o in vs)}
 
 
 def run(run):
@@ -72,8 +78,7 @@ def run(run):
         "BTC_TX": ({f"u32le(7+len({tx})) | u8(sighash_computation_mode.netvalue) | u16le(len({ed})) | {tx} | {ed}",
                     f"u32le(7+len({tx})) | u8(sighash_computation_mode.netvalue) | u16le(0) | {tx}"}, "TX_RECEIPT"),
         "TX_RECEIPT": ({"hex(rsk_tx_receipt)"}, "MERKLE_PROOF"),
-        "MERKLE_PROOF": ({"u8(len(receipt_merkle_proof))",
-                          "u8(len(receipt_merkle_proof)) | repeat(u8(len(hex(ELEM(receipt_merkle_proof)))) | hex(ELEM(receipt_merkle_proof)))"},
+        "MERKLE_PROOF": ({"u8(len(receipt_merkle_proof)) | repeat(u8(len(hex(ELEM(receipt_merkle_proof)))) | hex(ELEM(receipt_merkle_proof)))"},
                          "SUCCESS"),
     }
     sdc = P.method(D, "_send_data_in_chunks")
@@ -111,22 +116,28 @@ def run(run):
             run.check("R1", got == wl, f"({opn}) payload layout", key=f"sign_authorized|{opn}|layout", where=sa.loc(c),
                       message=f"{opn} payload is {sorted(got)}; the firmware expects {sorted(wl)}")
             ib = kwarg(c, "initial_bytes")
-            run.check("R1", ib is not None and norm(ib) == "bytes_requested", f"{opn}: first chunk size is what the device requested",
-                      key=f"sign_authorized|{opn}|initial-bytes", where=sa.loc(c), message=f"{opn}: initial_bytes is `{norm(ib) if ib else None}`")
+            prev = sends[0] if c is chunks[0] else chunks[chunks.index(c) - 1]
+            okib, why = _answer_size_of(run, PV, sa, D, ib, cn, prev, chunked=c is not chunks[0])
+            run.check("R1", okib, f"{opn}: first chunk size is the size the device requested in its answer to the previous step",
+                      key=f"sign_authorized|{opn}|initial-bytes", where=sa.loc(c),
+                      message=f"{opn}: initial_bytes (`{norm(ib) if ib is not None else None}`) is not the data byte of the answer to the previous step "
+                              f"({why}): the first chunk would be sized by a stale or foreign request")
     run.check("R1", seen_ops == ["BTC_TX", "TX_RECEIPT", "MERKLE_PROOF"], "steps in protocol order", key="sign_authorized|step-order-textual",
               where=sa.loc(), message=f"chunked steps appear as {seen_ops}")
-    # merkle bounds
+    # merkle bounds (facts at the raise sites, local names expanded to what they stand for)
     raises = [n for n in A.own_nodes(sa) if isinstance(n, ast.Raise)]
+    Lsa = Layout(lambda e: try_fold(P, e, sa, D))
     bounds = set()
     for r in raises:
         for rn in ga.nodes_of(r):
-            for f in F.local(sa, D, rn):
-                if f.kind == "cmp" and f.op == ">":
-                    ok, k = try_fold(P, f.right, sa, D)
-                    if ok and k == 255:
-                        bounds.add(norm(f.left))
-    run.check("R1", bounds == {"len(receipt_merkle_proof)", "len(node_bytes)"}, "both merkle counts bounded by 255",
-              key="sign_authorized|merkle|bounds", where=sa.loc(), message=f"255-bounds found on {sorted(bounds)}; the one-byte counts need both")
+            for t in F.expanded(sa, D, rn, PV, canon=Lsa.intexpr):
+                m = re.fullmatch(r"(.+) > 255", t) or re.fullmatch(r"(.+) >= 256", t)
+                if m:
+                    bounds.add(m.group(1))
+    need = {"len(receipt_merkle_proof)", "len(hex(ELEM(receipt_merkle_proof)))"}
+    run.check("R1", need <= bounds, "both merkle counts bounded by 255",
+              key="sign_authorized|merkle|bounds", where=sa.loc(), message=f"255-bounds found on {sorted(bounds)}; the one-byte counts "
+              f"{sorted(need)} need both")
     par_try = [n for n in A.own_nodes(sa) if isinstance(n, ast.Try) and any(isinstance(x, ast.Raise) for x in ast.walk(n))]
     okb = False
     for t in par_try:
@@ -157,7 +168,7 @@ def run(run):
     for r in [n for n in A.own_nodes(tb) if isinstance(n, ast.Return)]:
         for rn in gb.nodes_of(r):
             got = _lay(run, PV, tb, B, r.value, rn)
-            want = {"u8(len(self._elements))", "u8(len(self._elements)) | repeat(u32{'<'}(ELEM(self.elements).index))",
+            want = {"u8(len(self._elements)) | repeat(u32{'<'}(ELEM(self.elements).index))",
                     "u8(len(self._elements)) | repeat(u32{'>'}(ELEM(self.elements).index))"}
             run.check("R1", got == want, "to_binary = count | each element index as u32", key="BIP32Path.to_binary|layout", where=tb.loc(r),
                       message=f"to_binary builds {sorted(got)}")
@@ -234,75 +245,242 @@ def run(run):
                   key="sign_unauthorized|signature-source", where=su.loc(r), message=f"unauthorized signing returns `{norm(r.value.elts[1])}`")
 
     # ---------------------------------------------------------------- R3
-    run.rule("R3", "Chunk loop (_send_data_in_chunks): sends u8(operation) | data[offset:offset+bytes_requested]; offset and the sent "
-             "total advance by len(that slice) after the send and nowhere else; bytes_requested is initial_bytes, then the "
-             "answer's data byte while the same operation is requested; finished <=> answer op != operation; an op outside "
-             "[operation] + next_operations -> (False, answer); expect_full_data and finished and sent < len(data) -> (False, "
-             "answer); (True, answer) only after the loop; expect_full_data has no default.")
+    _chunk_loop(run, PV, D, sdc, defaults)
+
+    # ---------------------------------------------------------------- R4
+    _wiring(run, PV, fw, D)
+    # "what the client asked to have signed" is the transaction with its non-final script operations blanked: the frame of
+    # that transformation (rules R1/R2 of C14) is part of this property too - re-applied under the prefix B.
+    from . import c14
+    run.rid_prefix = "B."
+    try:
+        c14.scriptsig_rules(run, PV)
+    finally:
+        run.rid_prefix = ""
+    # ---------------------------------------------------------------- R5
+    _reply(run, F, PV)
+
+
+def _answer_size_of(run, PV, fn, cls, expr, at, prev_call, chunked):
+    """Is `expr` (at CFG node `at`) the requested-size byte of the answer to prev_call?  answer[OFF.DATA] for a
+    direct send, answer[1][OFF.DATA] for a chunked send; followed through local names by reaching definitions."""
+    P = run.P
+    okd, DAI = try_fold(P, ast.parse("self.OFF.DATA", mode="eval").body, fn, cls)
+    e, node = expr, at
+    for _ in range(6):
+        if isinstance(e, ast.Name):
+            rds = PV.reaching(fn, cls, e.id, node)
+            if len(rds) != 1 or rds[0].value is None or rds[0].kind != "assign":
+                return False, f"`{e.id}` has {len(rds)} reaching definitions here"
+            e, node = rds[0].value, rds[0].cnode
+            continue
+        break
+    if not (isinstance(e, ast.Subscript) and not isinstance(e.slice, ast.Slice)):
+        return False, f"it is `{norm(e)[:50]}`"
+    ok, idx = try_fold(P, e.slice, fn, cls)
+    if not ok or idx != DAI:
+        return False, f"it indexes `{norm(e.slice)}`, not OFF.DATA"
+    base = e.value
+    if chunked:
+        if not (isinstance(base, ast.Subscript) and isinstance(base.slice, ast.Constant) and base.slice.value == 1):
+            return False, f"it is `{norm(e)[:50]}`"
+        base = base.value
+    for _ in range(6):
+        if isinstance(base, ast.Name):
+            rds = PV.reaching(fn, cls, base.id, node)
+            if len(rds) != 1 or rds[0].value is None:
+                return False, f"`{base.id}` has {len(rds)} reaching definitions"
+            base, node = rds[0].value, rds[0].cnode
+            continue
+        break
+    return base is prev_call, f"it reads the answer of `{norm(base)[:60]}`"
+
+
+def _chunk_loop(run, PV, D, sdc, defaults):
+    """R3, decided on the decision table of one iteration (send -> next send / return), independent of the
+    loop's surface shape."""
+    P, A = run.P, run.A
+    run.rule("R3", "Chunk loop (_send_data_in_chunks), decided on the decision table of one iteration of the region send -> "
+             "next send | return, whatever the loop's surface shape: the message is u8(operation) | data[o:o+n]; before the first "
+             "send o = 0, sent = 0, n = initial_bytes; with P1 = answer op in [operation]+next_operations, P2 = answer op == "
+             "operation, P3 = expect_full_data, P4 = sent+len(slice) < len(data): not P1 -> (False, answer); P1 and P2 -> next "
+             "send with o += len(slice), sent += len(slice), n = answer[OFF.DATA]; P1, not P2, P3 and P4 -> (False, answer); "
+             "otherwise (True, answer); every completion of every leaf's valuation must have exactly that outcome; "
+             "expect_full_data has no default.")
     g = A.cfg(sdc, D)
-    c = find_calls(A, sdc, "_send_command")
-    run.require(len(c) == 1, "_send_data_in_chunks: send vanished")
-    c = c[0]
-    run.check("R3", norm(c.args[0]) == "command" and norm(c.args[1]) == "bytes([operation]) + to_send", "sends op | slice",
-              key="_send_data_in_chunks|send-expr", where=sdc.loc(c), message=f"the chunk message is `{norm(c)}`")
-    ts = defs_of(A, sdc, "to_send")
-    run.check("R3", len(ts) == 1 and norm(ts[0].value) == "data[offset:offset + bytes_requested]", "slice = data[offset:offset+requested]",
-              key="_send_data_in_chunks|slice", where=sdc.loc(), message=f"the slice sent is `{norm(ts[0].value) if ts else None}`: bytes would be "
-              "dropped, repeated or truncated")
-    tl = defs_of(A, sdc, "to_send_length")
-    run.check("R3", len(tl) == 1 and norm(tl[0].value) == "len(to_send)", "length of what is really sent", key="_send_data_in_chunks|sent-length",
-              where=sdc.loc(), message="to_send_length is not len(to_send)")
-    for nm in ("offset", "total_bytes_sent"):
-        ds = PV.defs(sdc, D).get(nm, [])
-        init = [d for d in ds if d.kind == "assign"]
-        augs = [d for d in ds if d.kind == "aug"]
-        ok = len(init) == 1 and norm(init[0].value) == "0" and len(augs) == 1 and isinstance(augs[0].node.op, ast.Add) \
-            and norm(augs[0].node.value) == "to_send_length"
-        sn = g.nodes_of(c)
-        ok = ok and all(any(g.dominates(x, a.cnode) for x in sn) for a in augs)
-        run.check("R3", ok, f"{nm} starts at 0 and advances by the sent length after each send", key=f"_send_data_in_chunks|{nm}|recurrence",
-                  where=sdc.loc(), message=f"`{nm}` is updated as {[norm(d.node)[:40] for d in ds]}: e.g. advancing by the requested size "
-                  "over-advances on a short last chunk")
-    br = PV.defs(sdc, D).get("bytes_requested", [])
-    vals = sorted(norm(d.value) for d in br)
-    run.check("R3", vals == ["initial_bytes", "response[self.OFF.DATA]"], "requested size: initial, then the device's answer",
-              key="_send_data_in_chunks|bytes_requested|definitions", where=sdc.loc(), message=f"bytes_requested is defined as {vals}")
-    for d in br:
-        if norm(d.value) == "response[self.OFF.DATA]":
-            facts = {f.text() for f in F.local(sdc, D, d.cnode)}
-            run.check("R3", "not finished" in facts, "next size read only while the same operation is requested",
-                      key="_send_data_in_chunks|bytes_requested|guard", where=sdc.loc(d.node), message="the next chunk size is read from an answer that ended the operation")
-    fd = [d for d in PV.defs(sdc, D).get("finished", []) if norm(d.value) != "False"]
-    run.check("R3", len(fd) == 1 and norm(fd[0].value) == "response[self.OFF.OP] != operation", "finished <=> another op requested",
-              key="_send_data_in_chunks|finished", where=sdc.loc(), message=f"`finished` is {[norm(d.value) for d in fd]}")
-    loops = [n for n in ast.walk(sdc.node) if isinstance(n, ast.While)]
-    run.check("R3", len(loops) == 1 and norm(loops[0].test) == "not finished", "loops while not finished", key="_send_data_in_chunks|loop",
-              where=sdc.loc(), message="the chunk loop condition changed")
-    falses = []
-    for r in [n for n in A.own_nodes(sdc) if isinstance(n, ast.Return)]:
-        v0 = r.value.elts[0].value if isinstance(r.value, ast.Tuple) and isinstance(r.value.elts[0], ast.Constant) else None
-        for rn in g.nodes_of(r):
-            facts = {f.text() for f in F.local(sdc, D, rn)}
-            if v0 is False:
-                falses.append(facts)
-            elif v0 is True:
-                inloop = any(r is x for l in loops for x in ast.walk(l))
-                run.check("R3", not inloop and norm(r.value.elts[1]) == "response", "(True, answer) only after the loop",
-                          key="_send_data_in_chunks|success-return", where=sdc.loc(r), message="success is returned from inside the loop / without the answer")
-    ok_unexp = any("response[self.OFF.OP] not in [operation] + next_operations" in f for f in falses)
-    ok_full = any({"expect_full_data", "finished", "total_bytes_sent < len(data)"} <= f for f in falses)
-    run.check("R3", ok_unexp, "unexpected op -> (False, answer)", key="_send_data_in_chunks|unexpected-op", where=sdc.loc(),
-              message="an answer requesting an op outside [operation] + next_operations is not treated as a failure")
-    run.check("R3", ok_full, "unsent data with expect_full_data -> (False, answer)", key="_send_data_in_chunks|full-data-check", where=sdc.loc(),
-              message="when full data is expected, finishing with unsent bytes is not treated as a failure")
+    cs = find_calls(A, sdc, "_send_command")
+    run.require(len(cs) == 1, "_send_data_in_chunks: exactly one send expected in the chunk loop (idiom not understood)")
+    c = cs[0]
+    sns = g.nodes_of(c)
+    run.require(len(sns) == 1 and sns[0].kind == "stmt" and isinstance(sns[0].ast, ast.Assign) and sns[0].ast.value is c
+                and len(sns[0].ast.targets) == 1 and isinstance(sns[0].ast.targets[0], ast.Name),
+                "_send_data_in_chunks: the send is not a plain `answer = self._send_command(...)` statement (idiom not understood)")
+    sn = sns[0]
+    R = sn.ast.targets[0].id
+    L = Layout(lambda e: try_fold(P, e, sdc, D))
+    okop, OPI = try_fold(P, ast.parse("self.OFF.OP", mode="eval").body, sdc, D)
+    okd, DAI = try_fold(P, ast.parse("self.OFF.DATA", mode="eval").body, sdc, D)
+    run.require(okop and okd, "OFF.OP / OFF.DATA not foldable")
+    state = {}
+
+    def answer_field(e):
+        """R[<const>] -> const index, else None"""
+        if isinstance(e, ast.Subscript) and isinstance(e.value, ast.Name) and e.value.id == R and not isinstance(e.slice, ast.Slice):
+            ok, v = try_fold(P, e.slice, sdc, D)
+            return v if ok else None
+        return None
+
+    def atom_of(e):
+        if isinstance(e, ast.Name) and e.id == "expect_full_data":
+            return ("P3", True)
+        cp = cmp_parts(e)
+        if cp is None:
+            return None
+        l, op, r = cp
+        if op in ("==", "!=") and answer_field(r) is not None:
+            l, r = r, l
+        if answer_field(l) == OPI:
+            rt = norm(r)
+            if op in ("in", "not in") and rt in ("[operation] + next_operations", "next_operations + [operation]",
+                                                 "(operation, *next_operations)", "[operation, *next_operations]"):
+                return ("P1", op == "in")
+            if op in ("==", "!=") and rt == "operation":
+                return ("P2", op == "==")
+            return None
+        # sent + len(slice) < len(data)
+        if op in (">", ">="):
+            l, r = r, l
+            op = {">": "<", ">=": "<="}[op]
+        if op in ("<", ">=") or op == "<=":
+            pass
+        if op in ("<",) or (op == ">=" and False):
+            pass
+        lt, rt = L.intexpr(l), L.intexpr(r)
+        if "slice" in state and rt == "len(data)" and op in ("<", ">="):
+            m = re.fullmatch(re.escape(f"len({state['slice']})") + r"\+(\w+)", lt)
+            if m and state.setdefault("T", m.group(1)) == m.group(1):
+                return ("P4", op == "<")
+        if "slice" in state and lt == "len(data)" and op in (">", "<="):
+            m = re.fullmatch(re.escape(f"len({state['slice']})") + r"\+(\w+)", rt)
+            if m and state.setdefault("T", m.group(1)) == m.group(1):
+                return ("P4", op == ">")
+        return None
+
+    # the message of the send, in terms of the iteration's entry state
+    cmd, msg = (c.args + [None, None])[:2]
+    run.check("R3", cmd is not None and norm(cmd) == "command", "sends with the caller's command", key="_send_data_in_chunks|send-command",
+              where=sdc.loc(c), message=f"the chunk message is sent with command `{norm(cmd) if cmd is not None else None}`")
+    got = {L.canon(x) for x in PV.expand_consistent(sdc, D, msg, sn, stop=tuple(n for n in PV.defs(sdc, D) if PV.reaching(sdc, D, n, sn)
+                                                                               and any(d.kind == "aug" or g.in_loop(d.cnode)
+                                                                                       for d in PV.reaching(sdc, D, n, sn))
+                                                                               and not _is_slice_temp(PV, sdc, D, n)))} \
+        if msg is not None else set()
+    m = None
+    if len(got) == 1:
+        m = re.fullmatch(r"u8\(operation\) \| (data\[(\w+):(\w+)\+(\w+)\])", next(iter(got)))
+    ok = bool(m) and m.group(2) in (m.group(3), m.group(4))
+    run.check("R3", ok, "message = u8(operation) | data[o:o+n]", key="_send_data_in_chunks|send-expr", where=sdc.loc(c),
+              message=f"the chunk message is {sorted(got)}, not u8(operation) | data[o:o+n]: bytes would be dropped, repeated or truncated")
+    if not ok:
+        return
+    state["slice"] = m.group(1)
+    X = m.group(2)
+    Y = m.group(4) if m.group(3) == X else m.group(3)
+    # temporaries computed between the loop head and the send (in terms of the iteration's entry state)
+    heads = [n for n in g.nodes if n.kind == "join" and n.note == "while-head" and any(c is x for x in ast.walk(n.ast))]
+    run.require(len(heads) == 1, "_send_data_in_chunks: the send is not inside exactly one while loop (idiom not understood)")
+    pre = [lf for lf in Walker(A, sdc, D, lambda e: None).walk(heads[0], stops={sn}) if lf.kind == "stop"]
+    env0s = {tuple(sorted((k, norm(v)) for k, v in lf.env.items())) for lf in pre}
+    run.require(len(env0s) == 1, "_send_data_in_chunks: the values computed before the send depend on the path taken (idiom not understood)")
+    W = Walker(A, sdc, D, atom_of)
+    leaves = W.walk(sn, stops={sn}, env=pre[0].env)
+    run.floor("R3", "leaves of the chunk iteration's decision table", len(leaves), 4)
+    atoms = ["P1", "P2", "P3", "P4"]
+
+    def feasible(v):
+        return not (v["P2"] and not v["P1"])
+
+    def spec(v):
+        if not v["P1"]:
+            return "fail"
+        if v["P2"]:
+            return "next"
+        if v["P3"] and v["P4"]:
+            return "fail"
+        return "ok"
+    names = {"fail": "(False, answer)", "ok": "(True, answer)", "next": "send the next chunk"}
+    n_cases = 0
+    for lf in leaves:
+        if lf.kind == "return" and isinstance(lf.value, ast.Tuple) and len(lf.value.elts) == 2 \
+                and isinstance(lf.value.elts[0], ast.Constant) and isinstance(lf.value.elts[0].value, bool):
+            actual = "ok" if lf.value.elts[0].value else "fail"
+            second = lf.value.elts[1]
+            run.check("R3", isinstance(second, ast.Name) and second.id == R and lf.bind.get(R) is not None,
+                      "the returned answer is the last chunk's answer", key=f"_send_data_in_chunks|returned-answer|{actual}", where=sdc.loc(lf.node.ast),
+                      message=f"_send_data_in_chunks returns `{norm(second)}` instead of the device's last answer")
+        elif lf.kind == "stop":
+            actual = "next"
+        else:
+            actual = f"{lf.kind} at line {lf.node.lineno}"
+        for v in completions({a: b for a, b in lf.pc.items() if a in atoms}, atoms, feasible):
+            n_cases += 1
+            want = spec(v)
+            desc = ", ".join(f"{a}={'T' if v[a] else 'F'}" for a in atoms)
+            kind = {"fail": "unexpected-op" if not v["P1"] else "full-data-check", "next": "continue", "ok": "success-return"}[want]
+            run.check("R3", actual == want, f"[{desc}] -> {names[want]}", key=f"_send_data_in_chunks|{kind}|{desc}", where=sdc.loc(lf.node.ast) if lf.node.ast is not None else sdc.loc(),
+                      message=f"for an answer with [{desc}] (P1: op in [operation]+next_operations, P2: op == operation, P3: expect_full_data, "
+                              f"P4: unsent data left) the chunk loop does `{names.get(actual, actual)}`; the protocol requires `{names[want]}`")
+        if lf.kind == "stop":
+            T = state.get("T")
+            sl = f"len({state['slice']})"
+            for var, want_v, why in ((X, f"{sl}+{X}", "offset advances by the length really sent"),
+                                     (T, f"{sl}+{T}" if T else None, "sent total advances by the length really sent")):
+                if var is None:
+                    continue
+                gotv = L.intexpr(lf.env[var]) if var in lf.env else var
+                run.check("R3", gotv == want_v, why, key=f"_send_data_in_chunks|{var}|recurrence", where=sdc.loc(),
+                          message=f"before the next chunk `{var}` is `{gotv}`, expected `{want_v}`: e.g. advancing by the requested size "
+                                  "over-advances on a short last chunk")
+            yv = lf.env.get(Y)
+            if yv is None and Y in lf.bind:
+                yv = lf.bind[Y]
+            run.check("R3", yv is not None and answer_field(yv) == DAI, "next size = the answer's data byte",
+                      key="_send_data_in_chunks|bytes_requested|next", where=sdc.loc(),
+                      message=f"the next chunk size is `{norm(yv) if yv is not None else Y + ' (unchanged)'}`, not the size the device just requested")
+    run.check("R3", state.get("T") is not None, "the full-data check compares the bytes really sent with len(data)", key="_send_data_in_chunks|full-data-check|present",
+              where=sdc.loc(), message="no comparison of (sent so far + this chunk) with len(data) guards the success return")
+    run.note(f"R3: {len(leaves)} leaves, {n_cases} valuation cases compared with the protocol table")
+    # prologue: entry -> first send
+    pro = Walker(A, sdc, D, lambda e: None).walk(g.entry, stops={sn})
+    for lf in pro:
+        run.check("R3", lf.kind == "stop", "every path from entry reaches the first send", key="_send_data_in_chunks|prologue|reaches-send", where=sdc.loc(),
+                  message=f"_send_data_in_chunks can {lf.kind} at line {lf.node.lineno} before sending anything")
+        if lf.kind != "stop":
+            continue
+        for var, want_v in ((X, "0"), (state.get("T"), "0"), (Y, "initial_bytes")):
+            if var is None:
+                continue
+            gotv = L.intexpr(lf.env[var]) if var in lf.env else var
+            run.check("R3", gotv == want_v, f"{var} starts as {want_v}", key=f"_send_data_in_chunks|{var}|initial", where=sdc.loc(),
+                      message=f"`{var}` is `{gotv}` at the first chunk, expected `{want_v}`")
     run.check("R3", "expect_full_data" not in defaults, "expect_full_data must be given explicitly", key="_send_data_in_chunks|expect_full_data-default",
               where=sdc.loc(), message=f"expect_full_data has a default ({norm(defaults.get('expect_full_data')) if 'expect_full_data' in defaults else None}): "
               "a call site that forgets it silently loses the completeness check")
 
-    # ---------------------------------------------------------------- R4
-    _wiring(run, PV, fw, D)
-    # ---------------------------------------------------------------- R5
-    _reply(run, F, PV)
+
+def _is_slice_temp(PV, fn, sc, name):
+    """A loop-local temporary (assigned once per iteration from a pure expression): expanded, not a stop."""
+    ds = PV.defs(fn, sc).get(name, [])
+    return len(ds) == 1 and ds[0].kind == "assign" and ds[0].value is not None and is_pure(ds[0].value)
+
+
+def _vals(run, PV, fn, cls, expr, cn):
+    """Value set of expr at cn in terms of `request`: path-sensitive (decision walk) when the function is loop-free
+    up to cn, flow-based provenance otherwise."""
+    try:
+        return {_strip(x) for x in values_at(run.A, fn, cls, cn, expr)}
+    except AnalysisError:
+        return {_strip(x) for x in PV.expand_consistent(fn, cls, expr, cn, stop=("request",))}
 
 
 def _wiring(run, PV, fw, D):
@@ -331,7 +509,7 @@ def _wiring(run, PV, fw, D):
                 continue
             n += 1
             for cn in g.nodes_of(c):
-                got = {_strip(x) for x in PV.expand_consistent(sg, V2, kws[k], cn, stop=("request",))}
+                got = _vals(run, PV, sg, V2, kws[k], cn)
                 run.check("R4", got == {_strip(w)}, f"{k} <- {w}", key=f"_sign|sign_authorized|{k}", where=sg.loc(c),
                           message=f"sign_authorized({k}=...) receives {sorted(got)[:1]}, expected `{w}`")
     for pc, m, w in ((V2, sg, {"key_id": "request['keyId']", "hash": "request['message']['hash']"}),
@@ -342,7 +520,7 @@ def _wiring(run, PV, fw, D):
             for k, ww in w.items():
                 n += 1
                 for cn in gm.nodes_of(c):
-                    got = {_strip(x) for x in PV.expand_consistent(m, pc, kws.get(k, ast.Constant(value=None)), cn, stop=("request",))}
+                    got = _vals(run, PV, m, pc, kws.get(k, ast.Constant(value=None)), cn)
                     run.check("R4", got == {_strip(ww)}, f"{pc.name}: {k} <- {ww}", key=f"{pc.name}._sign|sign_unauthorized|{k}", where=m.loc(c),
                               message=f"{pc.name}: sign_unauthorized({k}=...) receives {sorted(got)[:1]}, expected `{ww}`")
     run.floor("R4", "wired arguments", n, 12)
